@@ -2732,6 +2732,11 @@ func TestVerifWireMcp(t *testing.T) {
 				nd, ndtags := genNdStream(r, iog)
 				step("nd.split "+nd, ndtags...)
 			}
+			// multi round trip: what the retried request carries
+			{
+				op, tags := genRetry(r)
+				step(op, tags...)
+			}
 			// the CompleteReference codec: a reference through marshal → unmarshal, a JSON value through
 			// unmarshal → marshal
 			{
